@@ -131,11 +131,11 @@ func keyedCases(n int, alphabet []int) []string {
 	return out
 }
 
-func keyedCases2(alphabet []int) []string {
+func keyedCases2(n int, alphabet []int) []string {
 	var out []string
 	for _, a := range alphabet {
 		for _, b := range alphabet {
-			out = append(out, fmt.Sprintf("delay=1,op0=%d,op1=%d", a, b))
+			out = append(out, fmt.Sprintf("delay=1,init=%d,op0=%d,op1=%d", n, a, b))
 		}
 	}
 	return out
@@ -176,6 +176,16 @@ func proxyCases() []string {
 	return out
 }
 
+func kindCases() []string {
+	var out []string
+	for a := 0; a <= 4; a++ {
+		for b := 0; b <= 4; b++ {
+			out = append(out, fmt.Sprintf("k0=%d,k1=%d", a, b))
+		}
+	}
+	return out
+}
+
 func scriptCases(n int) []string {
 	var out []string
 	for a := 0; a < n; a++ {
@@ -196,15 +206,18 @@ func cat(js ...[]Job) []Job {
 
 func init() {
 	plans["C17"] = Plan{
-		Quick: []Job{
-			{H: "H_C17_ErrNotLost", K: 24, U: 3},
-			{H: "H_C17_Small", K: 12, U: 3},
-			{H: "H_C17_Two", K: 30, U: 3, Covers: 3, TimeoutSec: 900},
-		},
+		Quick: cat(
+			[]Job{
+				{H: "H_C17_ErrNotLost", K: 24, U: 3},
+				{H: "H_C17_Small", K: 12, U: 3},
+			},
+			// two entries: all 25 combinations of kinds (case split), caller cancellation symbolic
+			split(Job{H: "H_C17_Two", K: 30, U: 3, Fixes: kindCases(), TimeoutSec: 700}, 12),
+		),
 		Thorough: []Job{
 			{H: "H_C17_Three", K: 40, U: 4, TimeoutSec: 3000, QueryMs: 2400000},
 		},
-		Bounds:  "0, 1, 2 (thorough: 3) entries, each of symbolic kind {nil entry, returns nil, returns its own error, waits for its context then returns Canceled}; optional cancellation of the caller's context at any point; K<=30 (40) global steps, U=3 (4)",
+		Bounds:  "0, 1, 2 (thorough: 3) entries, each of kind {nil entry, returns nil, returns its own error, waits for its context then returns Canceled, returns Canceled at once} (the 25 combinations of two entries are case split, fully symbolic for 0/1 and in the thorough 3-entry harness); optional cancellation of the caller's context at any point; K<=30 (40) global steps, U=3 (4)",
 		Outside: "more than 3 functions; functions that panic",
 	}
 
@@ -229,6 +242,8 @@ func init() {
 			{H: "H_C02_NoTrace", K: 28, U: 3, Covers: 2},
 			{H: "H_C02_MutexNoTrace", K: 28, U: 3, Covers: 1},
 			{H: "H_C02_WriterPreference", K: 26, U: 3, TimeoutSec: 900},
+			// bug hunting only in the quick tier (short solver budget; the full proof is in thorough)
+			{H: "H_C02_WriterPreference2", K: 30, U: 3, Preempt: 2, TimeoutSec: 420, QueryMs: 150000},
 			{H: "H_C01_Mutex3", K: 26, U: 3, Only: "stuck/"},
 			{H: "H_C01_RW_2R1W", K: 26, U: 3, Only: "stuck/"},
 			{H: "H_C01_RW_1R2W", K: 26, U: 3, Only: "stuck/"},
@@ -257,6 +272,9 @@ func init() {
 			{H: "H_C04_ClearSetRoutine", K: 36, U: 3, Prune: true, Preempt: 2, Only: "routine-overlap|wait-return|setstate-channel|panic/", TimeoutSec: 900},
 			{H: "H_C04_NilRoutine", K: 36, U: 3, Prune: true, Preempt: 2, Only: "routine-overlap|wait-return|setstate-channel|panic/", TimeoutSec: 900},
 			{H: "H_C04_StateEmpty", K: 36, U: 3, Prune: true, Preempt: 2, Only: "routine-overlap|wait-return|setstate-channel|panic/", TimeoutSec: 900},
+			// bug hunting only in the quick tier (short solver budget; the full proof is in thorough)
+			{H: "H_C04_SetRoutine2", K: 40, U: 3, Prune: true, Preempt: 2, Only: "routine-overlap|wait-return|setstate-channel|panic/", TimeoutSec: 420, QueryMs: 150000},
+			{H: "H_C04_State2", K: 44, U: 3, Prune: true, Preempt: 2, Only: "routine-overlap|wait-return|setstate-channel|panic/", TimeoutSec: 420, QueryMs: 150000},
 		},
 		Thorough: []Job{
 			{H: "H_C04_State2", K: 44, U: 3, Prune: true, Preempt: 2, Only: "routine-overlap|wait-return|setstate-channel|panic/", TimeoutSec: 6000, QueryMs: 5000000},
@@ -272,6 +290,9 @@ func init() {
 		Quick: []Job{
 			{H: "H_C05_TwoDrivers", K: 44, U: 4, Prune: true, Preempt: 2, TimeoutSec: 900},
 			{H: "H_C05_RetryReplaced", K: 48, U: 3, Prune: true, Preempt: 2, TimeoutSec: 900},
+			// bug hunting only in the quick tier (short solver budget; the full proof is in thorough)
+			{H: "H_C05_StateVsRestart", K: 48, U: 4, Prune: true, Preempt: 2, TimeoutSec: 420, QueryMs: 150000},
+			{H: "H_C05_Survivor", K: 48, U: 4, Prune: true, Preempt: 2, TimeoutSec: 420, QueryMs: 150000},
 		},
 		Thorough: []Job{
 			{H: "H_C05_StateVsRestart", K: 48, U: 4, Prune: true, Preempt: 2, TimeoutSec: 6000, QueryMs: 5000000},
@@ -303,13 +324,13 @@ func init() {
 				{H: "H_C06_History", K: 30, U: 4, Fixes: []string{"delay=0"}, TimeoutSec: 900},
 				{H: "H_C06_RefCount", K: 6, U: 8, AppendCap: 6},
 			},
-			split(Job{H: "H_C06_History", K: 44, U: 4, Fixes: keyedCases(1, []int{0, 2, 4, 5, 7}), TimeoutSec: 1800}, 13),
+			split(Job{H: "H_C06_History", K: 44, U: 4, Fixes: append(keyedCases(0, all8), keyedCases(1, all8)...), TimeoutSec: 700}, 14),
 		),
 		Thorough: cat(
 			split(Job{H: "H_C06_History", K: 50, U: 4, Fixes: append(keyedCases(0, all8), append(keyedCases(1, all8), keyedCases(2, all8)...)...), TimeoutSec: 9000}, 14),
 			[]Job{{H: "H_C06_SyncKeepsKey", K: 48, U: 3, Prune: true, TimeoutSec: 3000, Weight: 3}},
 		),
-		Bounds:  "keys {1,2}; symbolic histories of 3 operations out of {SetKey(k), RemoveKey(k), SyncKeys(any subset, with a duplicate)} without release delay (fully symbolic) and, with a release delay, starting from key set {1}, the 125 histories of 3 operations over {SetKey(1), RemoveKey(1), SyncKeys({}), SyncKeys({1}), SyncKeys({1,2,2})} (thorough: all 512 over both keys from each of the initial sets {}, {1}, {1,2}; case split) followed by the expiry of the delay; KeyedRefCount: 2 references then 3 symbolic operations out of {release A, release B, RemoveKey, AddKeyRef}; container without context in the history harnesses, with context in H_C06_SyncKeepsKey",
+		Bounds:  "keys {1,2}; symbolic histories of 3 operations out of {SetKey(k), RemoveKey(k), SyncKeys(any subset, with a duplicate)} without release delay (fully symbolic) and, with a release delay, all 512 histories of 3 operations from each of the initial key sets {} and {1} (thorough: also from {1,2}; case split) followed by the expiry of the delay; KeyedRefCount: 2 references then 3 symbolic operations out of {release A, release B, RemoveKey, AddKeyRef}; container without context in the history harnesses, with context in H_C06_SyncKeepsKey",
 		Outside: "more than 2 keys, durations, map iteration orders other than slot order",
 	}
 
@@ -353,22 +374,26 @@ func init() {
 	}
 	plans["C16"] = Plan{
 		Quick: []Job{
-			{H: "H_C16_OnceTwo", K: 34, U: 2, Preempt: 2, TimeoutSec: 900},
-			{H: "H_C16_OnceCancel", K: 34, U: 2, Preempt: 2, Covers: 1, TimeoutSec: 900},
+			{H: "H_C16_OnceTwo", K: 34, U: 2, Preempt: 1, TimeoutSec: 700, QueryMs: 300000},
+			{H: "H_C16_OnceCancel", K: 34, U: 2, Preempt: 1, Covers: 1, TimeoutSec: 700, QueryMs: 300000},
 			{H: "H_C16_OnceRetry", K: 40, U: 3, TimeoutSec: 900},
 			{H: "H_C16_Memo", K: 34, U: 3},
+			// bug hunting only in the quick tier (short solver budget; the full proof is in thorough)
+			{H: "H_C16_Once2", K: 34, U: 2, Preempt: 1, TimeoutSec: 420, QueryMs: 150000},
 		},
 		Thorough: []Job{
 			{H: "H_C16_Once2", K: 34, U: 3, Preempt: 2, TimeoutSec: 6000, QueryMs: 5000000},
 			{H: "H_C16_Once", K: 40, U: 3, Preempt: 1, TimeoutSec: 6000, QueryMs: 5000000},
 		},
-		Bounds:  "promise.Once: 2 concurrent Resolve callers with a function that fails on its first call or not (symbolic); initiating caller cancellable at any moment + a live caller; sequential error-retry-success-kept; schedules with at most 2 preemptions, Resolve's retry loop unwound twice (unwinding query reported); memo: 3 concurrent callers, success or error, all schedules",
+		Bounds:  "promise.Once: 2 concurrent Resolve callers with a function that fails on its first call or not (symbolic); initiating caller cancellable at any moment + a live caller; sequential error-retry-success-kept; schedules with at most 1 preemption in the quick tier (thorough: 2), Resolve's retry loop unwound twice (unwinding query reported); memo: 3 concurrent callers, success or error, all schedules",
 		Outside: "more than 2 concurrent Once callers in the quick tier (thorough: 3); more than one failing call",
 	}
 	plans["C18"] = Plan{
 		Quick: []Job{
 			{H: "H_C18_Limit1Small", K: 34, U: 3, Preempt: 1, TimeoutSec: 900},
 			{H: "H_C18_Unlimited", K: 34, U: 3},
+			// bug hunting only in the quick tier (short solver budget; the full proof is in thorough)
+			{H: "H_C18_Limit2", K: 40, U: 4, Preempt: 1, TimeoutSec: 420, QueryMs: 150000},
 		},
 		Thorough: []Job{
 			{H: "H_C18_Limit1Small", K: 34, U: 3, Preempt: 2, Prune: true, TimeoutSec: 3000},
